@@ -184,7 +184,31 @@ func payloadOf(run *hist.Run, tag int) []byte {
 	return hist.TagPayload(tag)
 }
 
+// c34GenLateSubscriber: the other route into a client's write queue. Retained messages on 3-8 distinct topics, then a
+// subscriber with a write queue of 1-2 packets on a slow connection subscribes to all of them at once: whatever the
+// retained replay cannot queue has to be reported like any other dropped message.
+func c34GenLateSubscriber(rt *rapid.T) *hist.Case {
+	c := &hist.Case{}
+	c.Cfg.ClientPIDBase = 1000
+	c.Cfg.WriteBuf = pick(rt, "write-buffer", []int{16, 256, 2048})
+	c.Cfg.WritesPending = int32(pick(rt, "writes-pending", []int{1, 2, 2}))
+	c.Cfg.WriteDelayUS = pick(rt, "write-delay-us", []int{50, 200, 500})
+	c.Actions = append(c.Actions,
+		hist.Action{Kind: "connect", Client: 0, Version: pick(rt, "version", []byte{5, 4}), Clean: true, AutoAck: true},
+		hist.Action{Kind: "connect", Client: 1, Version: 4, Clean: true, AutoAck: true})
+	for i, n := 0, rapid.IntRange(3, 8).Draw(rt, "retained"); i < n; i++ {
+		c.Actions = append(c.Actions, hist.Action{Kind: "publish", Client: 1, Topic: fmt.Sprintf("x/r%d", i), QoS: byte(rapid.IntRange(0, 1).Draw(rt, "pq")), Retain: true, Pad: pick(rt, "pad", []int{0, 20, 100})})
+	}
+	c.Actions = append(c.Actions,
+		hist.Action{Kind: "subscribe", Client: 0, Filters: []refmqtt.Filter{{Filter: "x/#", QoS: byte(rapid.IntRange(0, 1).Draw(rt, "sq"))}}},
+		hist.Action{Kind: "ping", Client: 0})
+	return c
+}
+
 func c34Gen(rt *rapid.T) *hist.Case {
+	if rapid.IntRange(0, 5).Draw(rt, "late-subscriber") == 0 {
+		return c34GenLateSubscriber(rt)
+	}
 	c := &hist.Case{}
 	c.Cfg.ClientPIDBase = 1000
 	c.Cfg.WriteBuf = pick(rt, "write-buffer", []int{16, 64, 256, 2048})
@@ -233,7 +257,7 @@ func c34Gen(rt *rapid.T) *hist.Case {
 }
 
 func TestC34(t *testing.T) {
-	r := evid.New("C34", "rapid: 2-3 clients (v5 with Maximum Packet Size absent/40/120, or v3.1.1) subscribed to one filter with QoS 0-2, ClientNetWriteBufferSize 16/64/256/2048, MaximumClientWritesPending 1/2/4/default, connection write latency 0/2/5/10/20/50/200 us (so that the reader's direct writes arrive while the writer holds the write lock); single publishes, PINGREQs and bursts in which several clients (always including the subscriber itself) publish 1-6 messages each (QoS 0-2, payload padding 0-200 bytes) that are handed to the broker together, so that acknowledgements written directly by the reader (PUBACK/PUBREC/PUBCOMP/PINGRESP) interleave with publishes queued for the same connection, some of them oversize for the client. Oracle at every quiescent point, per connection: the multiset (type, packet id) of packets reported through OnPacketSent == the multiset decoded from the bytes received (both directions); for every subscriber and message: delivered exactly once, or a drop event (OnPublishDropped / OnQosDropped / OnPacketIDExhausted) for that client and message. Non-trivial = the case mixes direct and queued writes (burst or ping) or contains a refused write; distinct by (history, buffer configuration)")
+	r := evid.New("C34", "rapid: 2-3 clients (v5 with Maximum Packet Size absent/40/120, or v3.1.1) subscribed to one filter with QoS 0-2, ClientNetWriteBufferSize 16/64/256/2048, MaximumClientWritesPending 1/2/4/default, connection write latency 0/2/5/10/20/50/200 us (so that the reader's direct writes arrive while the writer holds the write lock); single publishes, PINGREQs and bursts in which several clients (always including the subscriber itself) publish 1-6 messages each (QoS 0-2, payload padding 0-200 bytes) that are handed to the broker together, so that acknowledgements written directly by the reader (PUBACK/PUBREC/PUBCOMP/PINGRESP) interleave with publishes queued for the same connection, some of them oversize for the client; one case in six instead retains messages on 3-8 distinct topics and then lets a subscriber with a write queue of 1-2 packets on a slow connection subscribe to all of them (retained replay into a full queue). Oracle at every quiescent point, per connection: the multiset (type, packet id) of packets reported through OnPacketSent == the multiset decoded from the bytes received (both directions); for every subscriber and message: delivered exactly once, or a drop event (OnPublishDropped / OnQosDropped / OnPacketIDExhausted) for that client and message. Non-trivial = the case mixes direct and queued writes (burst or ping) or contains a refused write; distinct by (history, buffer configuration)")
 	r.Assume("bursts hand several clients' packets to the broker at once; their handlers run free (schedule not owned), so which message is dropped can differ between runs; the oracle is an invariant of every schedule, a replay re-executes the history and may take another interleaving")
 	defer r.Finish(t)
 	if evid.ReplayMode() {
